@@ -48,6 +48,17 @@ func (gs GenesisState) Validate() error {
 	for _, b := range gs.OrderBookList {
 		oddsCount := 0
 		for _, be := range gs.OrderBookExposureList {
+			// only the odds exposures of this book are its concern
+			if be.OrderBookUID != b.UID {
+				continue
+			}
+			oddsCount++
+
+			// a book without participations has no participation exposures yet
+			if b.ParticipationCount == 0 {
+				continue
+			}
+
 			exposureFound := false
 			for _, pe := range gs.ParticipationExposureList {
 				if pe.OrderBookUID == b.UID && pe.OddsUID == be.OddsUID {
@@ -61,10 +72,6 @@ func (gs GenesisState) Validate() error {
 					be.OrderBookUID,
 					be.OddsUID,
 				)
-			}
-
-			if be.OrderBookUID == b.UID {
-				oddsCount++
 			}
 		}
 
